@@ -7,13 +7,18 @@ export GOFLAGS=-mod=mod GOPROXY=off
 unset GOSUMDB GOTOOLCHAIN
 W=$(mktemp -d "${TMPDIR:-/tmp}/vcheck.XXXXXX") || exit 2
 trap '[ -n "$VCHECK_KEEP" ] || rm -rf "$W"' EXIT
-(cd /repo && go build -o "$W/moq" .) || { echo "HARNESS ERROR: /repo does not build"; exit 2; }
+REPO="${VERIF_REPO:-/repo}"   # another checkout only together with VERIF_SNAPSHOT (seed detection)
+(cd "$REPO" && go build -o "$W/moq" .) || { echo "HARNESS ERROR: $REPO does not build"; exit 2; }
 V=/verif
 if [ -n "$VERIF_SNAPSHOT" ]; then
   # background mode (not used by the manifest): work from a private copy of the framework so
   # that /verif can be edited meanwhile; evidence and replays land in the copy
   mkdir -p "$W/snap" && cp -r /verif/mc /verif/rt /verif/e2 /verif/KNOWN_FINDINGS.json "$W/snap/" || exit 2
   V="$W/snap"; export VCHECK_ROOT="$V"
+  if [ "$REPO" != /repo ]; then
+    sed -i "s|=> /repo|=> $REPO|" "$V/mc/go.mod" || exit 2
+    export VCHECK_REPO="$REPO"
+  fi
 fi
 (cd "$V/mc" && go build -o "$W/vcheck" ./cmd/vcheck) || { echo "HARNESS ERROR: checker does not build against /repo"; exit 2; }
 mkdir -p "$W/work"
